@@ -589,6 +589,6 @@ fn dir_oracle(c: &DirCase, info: &mut Case) -> Result<(), String> {
 }
 
 pub fn run(ctx: &Ctx) {
-    ctx.explore("pair", ctx.tier.pick(20_000, 100_000), 16, pair_case, pair_oracle);
-    ctx.explore("directory", ctx.tier.pick(10_000, 60_000), 16, dir_case, dir_oracle);
+    ctx.explore("pair", ctx.tier.pick(20_000, 600_000), 16, pair_case, pair_oracle);
+    ctx.explore("directory", ctx.tier.pick(10_000, 300_000), 16, dir_case, dir_oracle);
 }
